@@ -133,7 +133,8 @@ def main():
         t1 = time.time()
         try:
             with contextlib.redirect_stdout(buf):
-                fd = femio.generate_brick(job['kind'], *job['n'])
+                base = job['kind'] if job['kind'] in ('hex', 'tet') else 'hex'
+                fd = femio.generate_brick(base, *job['n'])
                 lat = np.rint(fd.nodes.data * np.array(job['n'])).astype(np.int64)
                 cr = job.get('crease')
                 if cr:
@@ -143,20 +144,44 @@ def main():
                                     lat[:, 2] * (cr['D'] + cr['s'] * np.abs(lat[:, 0] - cr['i0']))],
                                    axis=1)
                 xyz = (lat @ np.array(job['M'], np.int64).T + np.array(job['t'], np.int64))
-                xyz = xyz.astype(np.float64) * float(job['scale'])
-                ids = np.array(job['node_ids'], np.int64) if job.get('node_ids') else fd.nodes.ids
+                xyz = xyz.astype(np.float64)
+                old_ids = [int(i) for i in fd.nodes.ids]
+                conn = np.array(fd.elements.data, np.int64)
+                etype = job['kind']
+                if etype == 'prism':
+                    # every hex (a..h) -> two prisms split along the same diagonal
+                    conn = np.array([r for (a, b, c, d, e, f, g, h) in conn
+                                     for r in ((a, b, c, e, f, g), (a, c, d, e, g, h))], np.int64)
+                elif etype == 'pyr':
+                    # every hex -> six pyramids on its faces, apex = new centre node
+                    # (mean of the 8 corners: exact dyadic coordinates)
+                    row_of = {i: k for k, i in enumerate(old_ids)}
+                    nxt = max(old_ids) + 1
+                    rows = []
+                    centres = []
+                    for (a, b, c, d, e, f, g, h) in conn:
+                        m = nxt
+                        nxt += 1
+                        centres.append(xyz[[row_of[int(v)] for v in (a, b, c, d, e, f, g, h)]].sum(axis=0) / 8)
+                        for F in ((e, f, g, h), (f, e, a, b), (g, f, b, c), (h, g, c, d), (e, h, d, a),
+                                  (d, c, b, a)):
+                            rows.append(tuple(reversed(F)) + (m,))
+                        old_ids.append(m)
+                    conn = np.array(rows, np.int64)
+                    xyz = np.vstack([xyz, np.array(centres)])
+                xyz = xyz * float(job['scale'])
+                ids = np.array(job['node_ids'], np.int64) if job.get('node_ids') \
+                    else np.array(old_ids, np.int64)
                 # relabel nodes (ids need not be 1..n nor sorted in storage)
-                old_ids = fd.nodes.ids
-                idmap = dict(zip([int(i) for i in old_ids], [int(i) for i in ids]))
+                idmap = dict(zip(old_ids, [int(i) for i in ids]))
                 perm = np.array(job['node_perm'], np.int64) if job.get('node_perm') \
                     else np.arange(len(ids))
-                conn = fd.elements.data
                 new_conn = np.vectorize(idmap.get)(conn)
-                etype = job['kind']
                 mesh = femio.FEMData(
                     nodes=femio.FEMAttribute('NODE', ids[perm], xyz[perm]),
                     elements=femio.FEMElementalAttribute(
-                        'ELEMENT', {etype: femio.FEMAttribute(etype, fd.elements.ids, new_conn)}))
+                        'ELEMENT', {etype: femio.FEMAttribute(
+                            etype, np.arange(len(new_conn)) + 1, new_conn)}))
                 poly = mesh.to_polyhedron()
             in_faces = [decode_poly(p)[0] for p in poly.elemental_data['face']['polyhedron'].data]
             out['in_polys'] = in_faces
